@@ -1058,7 +1058,8 @@ func corpus() []*History {
 		{Kind: "real", W: uint64(W), NewState: false, Ops: []Op{
 			{K: "light", N: 3}, {K: "store", Blk: evB(10)}, {K: "restart", G: true}, {K: "revert", N: 1},
 			{K: "store", Blk: b12}, {K: "restart", G: false}, qa(12, 3), qa(10, 3)}},
-		// stale persisted window: revert across the boundary, new block below it, crash -> rebuild
+		// regression input for /repo 5440575 (stale persisted window found by the rebuild): revert across the
+		// boundary, new block below it, crash -> rebuild; must now be exact and the following Store must succeed
 		{Kind: "real", W: uint64(W), NewState: true, Ops: []Op{
 			{K: "light", N: W + 1}, {K: "revert", N: W + 1 - 51}, {K: "store", Blk: b12}, {K: "restart", G: false},
 			qa(12, 60), {K: "light", N: 1, S: 1}}},
